@@ -497,7 +497,7 @@ def splice_fn(repo, file, item_path, sections, trait=None, nth=0, opts=(), canar
     # code of the function.  The receiver text must occur (else the anchor is lost).
     for dk in sorted(k for k in sections if k.startswith('desugar ')):
         want = [t.text for t in rs.tokenize(sections[dk]) if t.kind not in ('ws', 'comment', 'doc')]
-        if len(want) < 3 or want[-2] != '.' or want[-1] not in ('map', 'and_then', 'filter', 'any', 'find', 'find_map'):
+        if len(want) < 3 or want[-2] != '.' or want[-1] not in ('map', 'and_then', 'filter', 'any', 'all', 'find', 'find_map'):
             raise AnchorLost('template: //@%s must end in .map / .and_then / .filter / .any / .find / .find_map' % dk)
         method = want[-1]
         dk_words = dk.split()
@@ -512,6 +512,23 @@ def splice_fn(repo, file, item_path, sections, trait=None, nth=0, opts=(), canar
         # no occurrence: nothing to rewrite (the rewriting preserves meaning, so its absence needs no anchor)
         for p0 in hits:
             pm = p0 + len(want) - 1            # code position of the method name
+            if method in ('any', 'all') and pm + 3 < len(body_ci) and toks[body_ci[pm + 1]].text == '(' and toks[body_ci[pm + 2]].kind == 'ident' \
+                    and toks[body_ci[pm + 3]].text == ')':
+                # X2f with a NAMED local closure: `ITER.any(f)` / `ITER.all(f)` written as the loop calling `f` on each element
+                kk = re.sub(r'\W', '_', dk_id)
+                fname = toks[body_ci[pm + 2]].text
+                if fname in ('exists', 'forall', 'choose', 'assert', 'assume', 'proof', 'spec'):
+                    # a local named like a Verus keyword: the template renames its binding (`let exists =` -> `let cv_exists =`, X7)
+                    fname = 'cv_' + fname
+                init, hit = ('false', 'true') if method == 'any' else ('true', 'false')
+                neg = '' if method == 'any' else '!'
+                ed.ins_before(body_ci[p0], '({ let mut cv_any%s = %s; %s let mut cv_ait%s = (' % (kk, init, sections.get('any_before ' + dk_id, '').strip(), kk))
+                ed.replace(body_ci[pm - 1], body_ci[pm + 3], ').into_iter(); while let Some(cv_item%s) = cv_ait%s.next() %s { %s if %s%s(cv_item%s) { cv_any%s = %s; break; } } %s cv_any%s })' % (
+                    kk, kk, sections.get('any_inv ' + dk_id, '').strip(), sections.get('any_body ' + dk_id, '').strip(), neg, fname, kk, kk, hit,
+                    sections.get('any_after ' + dk_id, '').strip(), kk))
+                rules['X2f-' + method + '-named'] = rules.get('X2f-' + method + '-named', 0) + 1
+                dropped.append('%s:%d Iterator::%s over a named local closure written as the loop it abbreviates (X2f)' % (file, toks[body_ci[pm]].line, method))
+                continue
             if pm + 2 >= len(body_ci) or toks[body_ci[pm + 1]].text != '(' or toks[body_ci[pm + 2]].text != '|':
                 raise AnchorLost('%s: //@%s: not followed by an inline closure' % (item_path, dk))
             call_open = body_ci[pm + 1]
